@@ -85,6 +85,24 @@ Proof.
 Qed.
 Print Assumptions C18_legal_resource_name_accepted.
 
+(* both directions in one statement: when everything but the name is acceptable, add_resource succeeds
+   exactly when the name conflicts with no visible name *)
+Theorem C18_resource_accepted_iff : forall w m, reachable w -> In m w ->
+  forall id nm n size addr al A s e,
+  m_frozen m = false -> has_res m id = false -> mk_name nm = Ok n ->
+  (al = VNone /\ A = m_al m \/ exists a, al = VInt a /\ 0 <= a /\ A = Z.max a (m_al m)) ->
+  compute_addr_range m addr size A = Ok (s, e) ->
+  ((exists m', add_resource m id true nm size addr al = Ok (m', (s, e))) <->
+   (forall x, In x (m_names m) -> ~ name_conflict n x)).
+Proof.
+  intros w m Hr Hm id nm n size addr al A s e Hf Hid Hn HA Hcar. split.
+  - intros (m' & H) x Hx Hc.
+    rewrite (resource_conflict_refused w m Hr Hm id nm n size addr al Hf Hid Hn) in H by eauto.
+    discriminate.
+  - intros Hc. exact (resource_legal_accepted w m Hr Hm id nm n size addr al Hf Hid Hn Hc A HA s e Hcar).
+Qed.
+Print Assumptions C18_resource_accepted_iff.
+
 (* the namespace check of add_window: for a named window the one name, for an anonymous window all the
    names visible in the window map; the answer is the prefix relation, and the assert is dead *)
 Theorem C18_window_name_decides : forall w m wm, reachable w -> In m w -> In wm w ->
@@ -111,6 +129,42 @@ Proof.
     simpl. rewrite Hn. reflexivity.
 Qed.
 Print Assumptions C18_window_conflict_refused.
+
+(* a legal window name is never refused.  The other checks of add_window are named win_width_check,
+   win_ratio, win_size, win_align in Proofs/NamespaceDecide.v; `add_window_eq` there (by reflexivity)
+   shows that add_window is literally the sequence of these checks.  `win_name_arg nmo = Ok n` says the
+   name argument is None (n = None) or a valid name (n = Some name); `win_queries wm n` are the names
+   the window would contribute: the one name, or all names visible in the window map. *)
+Theorem C18_legal_window_name_accepted : forall w m wm, reachable w -> In m w -> In wm w ->
+  forall wid nmo n addr sparse s e,
+  m_frozen m = false -> has_win m wid = false -> (m_dw wm >? m_dw m) = false ->
+  win_width_check m wm sparse = Ok tt -> win_name_arg nmo = Ok n ->
+  (forall q x, In q (win_queries wm n) -> In x (m_names m) -> ~ name_conflict q x) ->
+  Z.land (win_ratio m wm sparse) (win_ratio m wm sparse - 1) = 0 ->
+  (win_ratio m wm sparse >? Z.shiftl 1 (m_al wm)) = false ->
+  compute_addr_range m addr (VInt (win_size m wm sparse)) (win_align m wm sparse) = Ok (s, e) ->
+  exists m', add_window m wid wm nmo addr sparse = Ok (m', (s, e, win_ratio m wm sparse)).
+Proof. exact window_legal_accepted. Qed.
+Print Assumptions C18_legal_window_name_accepted.
+
+Theorem C18_window_accepted_iff : forall w m wm, reachable w -> In m w -> In wm w ->
+  forall wid nmo n addr sparse s e,
+  m_frozen m = false -> has_win m wid = false -> (m_dw wm >? m_dw m) = false ->
+  win_width_check m wm sparse = Ok tt -> win_name_arg nmo = Ok n ->
+  Z.land (win_ratio m wm sparse) (win_ratio m wm sparse - 1) = 0 ->
+  (win_ratio m wm sparse >? Z.shiftl 1 (m_al wm)) = false ->
+  compute_addr_range m addr (VInt (win_size m wm sparse)) (win_align m wm sparse) = Ok (s, e) ->
+  ((exists m', add_window m wid wm nmo addr sparse = Ok (m', (s, e, win_ratio m wm sparse))) <->
+   (forall q x, In q (win_queries wm n) -> In x (m_names m) -> ~ name_conflict q x)).
+Proof.
+  intros w m wm Hr Hm Hwm wid nmo n addr sparse s e Hf Hid Hdw Hwc Hn Hpow Hra Hcar. split.
+  - intros (m' & H) q x Hq Hx Hc.
+    rewrite (window_conflict_refused w m wm Hr Hm Hwm wid nmo n addr sparse Hn) in H by eauto.
+    discriminate.
+  - intros Hc.
+    exact (window_legal_accepted w m wm Hr Hm Hwm wid nmo n addr sparse s e Hf Hid Hdw Hwc Hn Hc Hpow Hra Hcar).
+Qed.
+Print Assumptions C18_window_accepted_iff.
 
 (* consequence: the paths reported for the resources of any map are pairwise distinct *)
 Theorem C18_paths_distinct : forall w m l, reachable w -> In m w ->
